@@ -204,7 +204,7 @@ theorem HOK_forceDelG (s : St) (g : Nat) (hI : HOK s) : HOK (forceDelG s g) := b
       first | done | simp (maxDischargeDepth := 8) only [hoki_invalidateTrackable, hoki_gcImpl, hoki_adel_G, *]
 
 theorem HOK.collect (s : St) (hI : HOK s) : HOK (collect s) :=
-  HOK.prims.collect (fun _ _ h => h) (fun _ _ h => h) hI
+  HOK.prims.collect (fun _ _ h => h) (fun _ _ h => h) (dropG_of (fun _ _ h => h) HOK_forceDelG) hI
 
 theorem HOK.stable : Stable HOK where
   log _ _ _ h := h
